@@ -350,6 +350,14 @@ def rule_env(ctx):
             for c in conditions_to(fn["body"], s):
                 if c[0] == "iflet" and render(c[1]).replace(" ", "").split("::")[-1] == "Function" and "definition_type" in render(c[2]):
                     pol.append(bool(c[3]))
+                if c[0] == "arm" and "definition_type" in render(c[1]) and c[3] is None:
+                    from astlib import pat_paths as _pp
+
+                    alts = {last(x) for x in _pp(c[2])}
+                    if alts and alts <= {"Function"}:
+                        pol.append(True)
+                    elif alts and "Function" not in alts and "_" not in alts and alts <= {"Template", "CustomTemplate"}:
+                        pol.append(False)
             shown = conds + [("" if p_ else "!") + render(c_) for c_, p_ in cs[len(base):]]
             if pol and all(pol):
                 ok = val == ("Constant", "Linear")
@@ -415,6 +423,10 @@ def rule_cs0013(ctx):
     fn = find_fn(SA, "find_signal_assignments")
     if fn is None:
         return ctx.missing(R, "find_signal_assignments")
+    import c08eval
+
+    if c08eval.rule(ctx, R, "degree"):
+        return
     import alpha
 
     import sgrep
